@@ -83,7 +83,8 @@ def step (cfg : Cfg) (st : St) (line : String) : St × String :=
       let lock := if r.lock != 0 then 1 else 0
       let vig := if r.vigil != 0 then 1 else 0
       let store := if engine then "any" else "same"
-      let bad := !r.out.defined || r.lock != 0 || r.vigil != 0
+      let rejectedAfterWrite := h.writes && (match r.out with | .grpcError _ _ => true | _ => false) && r.bodies != 0
+      let bad := !r.out.defined || r.lock != 0 || r.vigil != 0 || rejectedAfterWrite
       -- a handler that fails on the ordinary request too is reported once, not per shape
       let r0 := exec cfg h { top := {}, entries := [{}] }
       let always := !r0.out.defined || r0.lock != 0 || r0.vigil != 0
